@@ -284,6 +284,17 @@ theorem data_restored_every_fault_point (repl : Bool) (r : Rat) (zs : List (List
     (run (combined repl r zs p e ss) sim (some k)).2.sim.data = sim.data :=
   data_restored repl r zs p e ss _
 
+/-- Faults only come from the schedule: a run without scheduled fault never ends with the injected
+error, for each of the three operations — every failure of such a run is a natural one (no data,
+2-D data, one-point grid in the fallback), so the fault runs of the harness differ from the
+fault-free run only by the injected exception. -/
+theorem no_spurious_fault (repl : Bool) (r : Rat) (zs : List (List (List Rat))) (p e : Rat)
+    (ss : List (List CurveScript)) (sim : Sim) :
+    (run (addNoise r zs) sim none).1 ≠ .error .injected ∧
+    (run (sparsify repl p e ss) sim none).1 ≠ .error .injected ∧
+    (run (combined repl r zs p e ss) sim none).1 ≠ .error .injected :=
+  ⟨(NoInj.addNoise r zs _ rfl).1, (NoInj.sparsify repl p e ss _ rfl).1, (NoInj.combined repl r zs p e ss _ rfl).1⟩
+
 /-- The operation as coded before the repair (swap without `finally`) violates the clause on
 the natural 2-D failure, with no injected fault: afterwards `data` holds the noisy curves.
 This is what the check reports on the unrepaired tree. -/
